@@ -110,7 +110,7 @@ class Unit:
             m = re.match(r'^\s*//@extract\s+(.*)$', text)
             if m:
                 spec, _, opts = m.group(1).partition('|')
-                comps = [c.strip() for c in spec.split('::')]
+                comps = [c.strip() for c in re.split(r'\s::\s', spec)]
                 file, path = comps[0], comps[1:]
                 j = i + 1
                 lines = []
@@ -124,7 +124,7 @@ class Unit:
                 continue
             m = re.match(r'^\s*//@(trusted|watch)\s+(.*)$', text)
             if m:
-                comps = [c.strip() for c in m.group(2).split('::')]
+                comps = [c.strip() for c in re.split(r'\s::\s', m.group(2))]
                 props = []
                 if m.group(1) == 'watch':
                     # //@watch C20 C15 :: FILE :: item   -- an out-of-reach function these properties depend on
@@ -242,7 +242,8 @@ def embed(golden, annotated, rightmost=False):
 def position_map(golden, current):
     """pos[k] for k in 0..len(golden): index in `current` before which contract group k is placed"""
     pos = [None] * (len(golden) + 1)
-    sm = difflib.SequenceMatcher(None, golden, current, autojunk=False)
+    # lines are aligned modulo indentation: code moved into or out of a block is the same code
+    sm = difflib.SequenceMatcher(None, [l.strip() for l in golden], [l.strip() for l in current], autojunk=False)
     for tag, i1, i2, j1, j2 in sm.get_opcodes():
         if tag == 'equal':
             for k in range(i1, i2):
@@ -352,6 +353,11 @@ def apply_renames(text, renames):
     return ''.join(renames.get(t[1], t[1]) if t[0] == 'id' else t[1] for t in toks)
 
 
+def _only_directives(group):
+    """a group made only of //@props / //@ob marker lines (they attribute what follows to properties and are never dropped)"""
+    return all(re.match(r'^\s*//@(props|ob)\b', t) for (t, _) in group)
+
+
 def weave_region(region, golden_lines, current_lines, drop_level=0):
     """returns list of (text, kind, origin) with kind in {'code','contract'}.
     drop_level (changed regions only, used after a front-end rejection of the plain weave):
@@ -374,7 +380,7 @@ def weave_region(region, golden_lines, current_lines, drop_level=0):
     changed = current_lines != golden_lines
     eq_map = {}
     if changed:
-        sm = difflib.SequenceMatcher(None, golden_lines, current_lines, autojunk=False)
+        sm = difflib.SequenceMatcher(None, [l.strip() for l in golden_lines], [l.strip() for l in current_lines], autojunk=False)
         for tag, i1, i2, j1, j2 in sm.get_opcodes():
             if tag == 'equal':
                 for d in range(i2 - i1):
@@ -392,6 +398,33 @@ def weave_region(region, golden_lines, current_lines, drop_level=0):
             body_open = k0
             break
     dropped = 0
+    if changed and drop_level == 1:
+        # level 1 drops the groups next to changed lines -- and, transitively, every in-body group that uses a ghost name
+        # declared in a dropped group (otherwise the kept group would not even type-check)
+        def adjacent_changed(k):
+            prev_ok = k > 0 and eq_map.get(k - 1) == pos[k] - 1
+            next_ok = k < len(golden_lines) and eq_map.get(k) == pos[k]
+            return not (prev_ok and next_ok)
+        in_body_idx = [k for k, g in enumerate(groups) if g and body_open is not None and k > body_open]
+        drop_set = {k for k in in_body_idx if adjacent_changed(k)}
+        decl_re = re.compile(r'\blet\s+ghost\s+(?:mut\s+)?(\w+)')
+        grew = True
+        while grew:
+            grew = False
+            names = set()
+            for k in drop_set:
+                for (t, _) in groups[k]:
+                    names |= set(decl_re.findall(t))
+            for k in in_body_idx:
+                if k in drop_set:
+                    continue
+                text = '\n'.join(t for (t, _) in groups[k])
+                if any(re.search(r'\b%s\b' % re.escape(nm), text) for nm in names):
+                    drop_set.add(k)
+                    grew = True
+        transitive_drop = drop_set
+    else:
+        transitive_drop = None
     for k, g in enumerate(groups):
         if g:
             if changed:
@@ -400,12 +433,12 @@ def weave_region(region, golden_lines, current_lines, drop_level=0):
                 next_ok = k < len(golden_lines) and eq_map.get(k) == pos[k]
                 g = _drop_dangling_else(g, '}' if prev_ok else '')
                 in_body = body_open is not None and k > body_open
-                if in_body and drop_level >= 2:
+                if in_body and not _only_directives(g) and (drop_level >= 2 or (drop_level == 1 and k in transitive_drop)):
                     dropped += 1
-                    continue
-                if in_body and drop_level == 1 and not (prev_ok and next_ok):
-                    dropped += 1
-                    continue
+                    # the property markers of a dropped group stay: they say which property the code that follows belongs to
+                    g = [(t, o) for (t, o) in g if re.match(r'^\s*//@props\b', t)]
+                    if not g:
+                        continue
             by_pos.setdefault(pos[k], []).extend(g)
     region.dropped_groups = dropped
     out = []
